@@ -300,6 +300,26 @@ Proof.
   apply post_finish; [reflexivity|reflexivity|apply cfg_refl].
 Qed.
 
+(* the same with the resulting state spelled out (used by C21: nothing but next_recv and the persister changes) *)
+Lemma process_app_inseq_explicit : forall raw q m s,
+  arrives raw q m -> live s -> is_session_type (m_type m) = false -> cid_ok s m = true -> q = s_next_recv s ->
+  process sc decode fl now raw s =
+  (mem_bytes (m_type m) (sc_routed sc), update_persist_seqnums (w_next_recv (s_next_recv s + 1) s),
+   [EDeliver (m_type m) q (possdup m)]).
+Proof.
+  intros raw q m s A (Act & Sh & R) T C Q.
+  assert (NSR : beq (m_type m) mt_sequence_reset = false).
+  { destruct (beq (m_type m) mt_sequence_reset) eqn:E; [|reflexivity]. apply beq_eq in E. rewrite E in T. discriminate. }
+  assert (SC : sequence_check sc now q m s = (inl true, s, [])) by (apply sequence_check_eq; congruence).
+  assert (EN : enforce sc now q m s = (inl false, s, [])).
+  { rewrite enforce_running by assumption. rewrite SC. reflexivity. }
+  assert (D : dispatch sc decode now q m s =
+              (inl (mem_bytes (m_type m) (sc_routed sc), false), s, [EDeliver (m_type m) q (possdup m)])).
+  { rewrite dispatch_app by assumption.
+    rewrite (bind_inl _ _ _ _ _ _ _ _ (handle_application_pass _ _ _ _ _ EN)). reflexivity. }
+  apply (process_dispatch_ok _ _ _ _ _ _ _ A D).
+Qed.
+
 (* above the expected number in state continuous: ResendRequest, not delivered, and the expected number is
    incremented all the same *)
 Lemma process_app_high : forall raw q m s,
